@@ -84,17 +84,23 @@ func (c *compiler) write(bb *strings.Builder, i interface{}) {
 			c.write(bb, *t)
 		}
 	case interfaceable:
-		c.write(bb, t.Interface())
+		if !nilValueReceiver(t, "Interface") {
+			c.write(bb, t.Interface())
+		}
 	case string, ast.Printable, bool:
 		bb.Write(unsafeGetBytes(template.HTMLEscaper(t)))
 	case template.HTML:
 		bb.Write(unsafeGetBytes(string(t)))
 	case HTMLer:
-		bb.Write(unsafeGetBytes(string(t.HTML())))
+		if !nilValueReceiver(t, "HTML") {
+			bb.Write(unsafeGetBytes(string(t.HTML())))
+		}
 	case uint, uint8, uint16, uint32, uint64, int, int8, int16, int32, int64, float32, float64:
 		bb.Write(unsafeGetBytes(fmt.Sprint(t)))
 	case fmt.Stringer:
-		bb.Write(unsafeGetBytes(t.String()))
+		if !nilValueReceiver(t, "String") {
+			bb.Write(unsafeGetBytes(t.String()))
+		}
 	case []string:
 		for _, ii := range t {
 			c.write(bb, ii)
@@ -108,6 +114,18 @@ func (c *compiler) write(bb *strings.Builder, i interface{}) {
 			c.write(bb, ii)
 		}
 	}
+}
+
+// nilValueReceiver reports whether i is a nil pointer whose method m is declared on the
+// pointed-to type: calling it would dereference the nil pointer. Such a value prints as
+// nothing, like a nil *time.Time.
+func nilValueReceiver(i interface{}, m string) bool {
+	rv := reflect.ValueOf(i)
+	if rv.Kind() != reflect.Ptr || !rv.IsNil() {
+		return false
+	}
+	_, ok := rv.Type().Elem().MethodByName(m)
+	return ok
 }
 
 func (c *compiler) evalExpression(node ast.Expression) (interface{}, error) {
